@@ -14,7 +14,8 @@ from hypothesis import strategies as st
 from vf import cel, common, gen, ir, localize, outcome, refcel
 
 RULE = (
-    "type-directed programs (each operator, function, macro and conversion at the root and nested; depth <= 3) with generated activations; "
+    "type-directed programs (each operator, function, macro - over lists and over maps - and conversion at the root and nested; depth <= 3), root templates with fixed and "
+    "with generated activations, nested macros, JSON-document navigation; "
     "(a) exact class skeleton of the returned value vs the class of the reference value's CEL type, containers recursively; "
     "(b) type(e) == N for the 12 type names; (c) type(x op y) == type(x) for arithmetic, concatenation, time arithmetic. "
     "non-trivial = root is an operator/function/macro result (not a literal or variable) and evaluates to a value. distinct by source+bindings."
@@ -170,6 +171,18 @@ def root_templates() -> List[Tuple[Tuple, str]]:
     out += [(("macro", V("li"), "map", "x", ("bin", "+", V("x"), L("int", 1))), "list<int>"), (("macro", V("li"), "map", "x", ("bin", "*", V("d1"), V("d1"))), "list<double>"),
             (("macro", V("li"), "map", "x", ("bin", "+", V("s1"), V("s2"))), "list<string>"), (("macro", V("li"), "filter", "x", ("bin", ">", V("x"), L("int", 1))), "list<int>"),
             (("macro", V("ls"), "filter", "x", ("bin", "!=", V("x"), L("string", "a"))), "list<string>"), (("macro", V("msi"), "map", "k", V("k")), "list<string>")]
+    # macros over maps iterate over the keys: predicates that keep every key, some keys, no key
+    for recv, kk, keep_all, keep_some in [("msi", "string", ("bin", "!=", V("k"), L("string", "q")), ("bin", "==", V("k"), L("string", "a"))),
+                                          ("mis", "int", ("bin", "==", V("k"), V("k")), ("bin", ">", V("k"), L("int", 0))),
+                                          ("mbs", "bool", ("bin", "||", V("k"), L("bool", True)), V("k"))]:
+        for pred in (keep_all, keep_some, L("bool", False)):
+            out.append((("macro", V(recv), "filter", "k", pred), f"list<{kk}>"))
+            for m in ["all", "exists", "exists_one"]:
+                out.append((("macro", V(recv), m, "k", pred), "bool"))
+        out.append((("macro", V(recv), "map", "k", ("index", V(recv), V("k"))), "list<dyn>"))
+        out.append((("bin", "+", ("macro", V(recv), "filter", "k", keep_all), ("macro", V(recv), "map", "k", V("k"))), f"list<{kk}>"))
+    out += [(("macro", V("li"), "filter", "x", ("bin", "==", V("x"), V("x"))), "list<int>"), (("macro", V("li"), "filter", "x", L("bool", False)), "list<int>"),
+            (("macro", V("ll"), "filter", "x", ("bin", "==", V("x"), V("x"))), "list<list<int>>"), (("macro", V("ll"), "map", "x", ("macro", V("x"), "filter", "y", L("bool", True))), "list<list<int>>")]
     conv = {"int": ["i1", "u1", "d1", "sn"], "uint": ["u1", "i2", "d1", "sn"], "double": ["i1", "u1", "d1"], "string": ["i1", "u1", "s1", "y1"], "bytes": ["s1", "y1"]}
     for T, srcs in conv.items():
         for v in srcs:
@@ -189,11 +202,11 @@ def root_templates() -> List[Tuple[Tuple, str]]:
 TEMPLATE_KINDS = dict(gen.VAR_KINDS, u2="uint", d2="double", y2="bytes", li2="list<int>", n0="null", sn="string")
 TEMPLATE_ENVS = [
     {"i1": 7, "i2": 2, "u1": 5, "u2": 3, "d1": 2.5, "d2": 0.5, "b1": True, "b2": False, "s1": "ab", "s2": "a", "y1": b"ab", "y2": b"\xff", "li": [1, 2, 3], "li2": [2],
-     "ls": ["a", "b"], "ll": [[1], []], "msi": {"a": 1, "b": 2}, "msl": {"a": [1]}, "t1": 1234567890 * 10**6, "t2": 0, "dd1": 90 * 10**6, "dd2": -10**6, "n0": None, "sn": "42"},
+     "ls": ["a", "b"], "ll": [[1], []], "msi": {"a": 1, "b": 2}, "mis": {1: "a", 2: "b"}, "mbs": {True: "t"}, "msl": {"a": [1]}, "t1": 1234567890 * 10**6, "t2": 0, "dd1": 90 * 10**6, "dd2": -10**6, "n0": None, "sn": "42"},
     {"i1": -3, "i2": -2, "u1": 0, "u2": 1, "d1": -0.0, "d2": 1e10, "b1": False, "b2": False, "s1": "", "s2": "", "y1": b"", "y2": b"", "li": [2], "li2": [2],
-     "ls": ["a"], "ll": [[2, 3]], "msi": {"a": 0}, "msl": {"a": []}, "t1": 951782400 * 10**6, "t2": 951782400 * 10**6, "dd1": 0, "dd2": 0, "n0": None, "sn": "7"},
+     "ls": ["a"], "ll": [[2, 3]], "msi": {"a": 0}, "mis": {}, "mbs": {}, "msl": {"a": []}, "t1": 951782400 * 10**6, "t2": 951782400 * 10**6, "dd1": 0, "dd2": 0, "n0": None, "sn": "7"},
     {"i1": 1, "i2": 1, "u1": 9, "u2": 9, "d1": 1.0, "d2": 3.0, "b1": True, "b2": True, "s1": "\U0001f431a", "s2": "a", "y1": b"\x00", "y2": b"a", "li": [5, 0, 5], "li2": [],
-     "ls": ["b", "a", "a"], "ll": [[0]], "msi": {"a": 5, "zz": 1}, "msl": {"a": [1, 2]}, "t1": 86399 * 10**6, "t2": 86400 * 10**6, "dd1": 3600 * 10**6, "dd2": 1, "n0": None, "sn": "0"},
+     "ls": ["b", "a", "a"], "ll": [[0]], "msi": {"a": 5, "zz": 1}, "mis": {-1: "", 0: "z", 3: "q"}, "mbs": {True: "t", False: "f"}, "msl": {"a": [1, 2]}, "t1": 86399 * 10**6, "t2": 86400 * 10**6, "dd1": 3600 * 10**6, "dd2": 1, "n0": None, "sn": "0"},
 ]
 
 
@@ -207,6 +220,20 @@ def check_templates(run: common.Run, report) -> None:
             n += 1
     run.extra["root_templates"] = len(root_templates())
     run.extra["root_template_cases"] = n
+
+
+def template_case():
+    """A root template with GENERATED payloads for its variables (the three fixed environments above cover each production; these cover its inputs)."""
+    templates = root_templates()
+
+    @st.composite
+    def strat(draw):
+        node, T = templates[draw(st.integers(0, len(templates) - 1))]
+        used = sorted({x[1] for x in ir.walk(node) if x[0] == "var" and x[1] in TEMPLATE_KINDS})
+        env = {k: (TEMPLATE_KINDS[k], "42" if k == "sn" else draw(gen.payload_of(TEMPLATE_KINDS[k]))) for k in used}
+        return node, T, env
+
+    return strat()
 
 
 def _node(x):
@@ -230,6 +257,10 @@ def campaign(run: common.Run) -> None:
     # shallow programs put each production at the root; deeper ones nest them
     common.drive(run, body, {"p": gen.typed_program(1)}, 200 if q else 8000, seed_salt=1)
     common.drive(run, body, {"p": gen.typed_program(3)}, 300 if q else 8000, seed_salt=2)
+    common.drive(run, body, {"p": template_case()}, 500 if q else 20000, seed_salt=5)
+    # nested macros (list or map receivers) and navigation of JSON-like documents (null / empty members included)
+    common.drive(run, body, {"p": gen.nested_macro_program()}, 150 if q else 4000, seed_salt=3)
+    common.drive(run, body, {"p": gen.document_program()}, 250 if q else 6000, seed_salt=4)
 
 
 def main(run: common.Run) -> None:
